@@ -279,7 +279,7 @@ def sample(ctx, budget=1.0, hint=None, broken=None):
                 for stepi in range(r.randint(1, 12)):
                     n = len(path)
                     k = r.choice(['set', 'setneg', 'slice', 'del', 'ins', 'app', 'ext', 'pop', 'rev', 'sstart', 'send', 'iadd',
-                                  'q', 'q', 'qlen-loose'])
+                                  'alias', 'q', 'q', 'qlen-loose'])
                     try:
                         if k == 'set' and n:
                             i = r.randrange(n); path[i] = seg('line'); hist.append('p[%d]=seg' % i)
@@ -293,6 +293,19 @@ def sample(ctx, budget=1.0, hint=None, broken=None):
                             i = r.randrange(n); del path[i]; hist.append('del p[%d]' % i)
                         elif k == 'ins':
                             i = r.choice([r.randint(0, n), r.randint(-n - 3, n + 3), -n, -n - 1, -1]); path.insert(i, seg()); hist.append('insert(%d)' % i)
+                        elif k == 'alias' and n:
+                            # the SAME segment object in a second slot (p.append(p[0]), p.insert(0, p[-1]), p.extend([p[i]])):
+                            # assigning start/end afterwards moves both slots at once
+                            i = r.choice([0, n - 1, r.randrange(n)])
+                            how = r.choice(['append', 'insert0', 'extend', 'set'])
+                            if how == 'append':
+                                path.append(path[i]); hist.append('append(p[%d])' % i)
+                            elif how == 'insert0':
+                                path.insert(0, path[i]); hist.append('insert(0, p[%d])' % i)
+                            elif how == 'extend':
+                                path.extend([path[i]]); hist.append('extend([p[%d]])' % i)
+                            else:
+                                j = r.randrange(n); path[j] = path[i]; hist.append('p[%d]=p[%d]' % (j, i))
                         elif k == 'app':
                             path.append(seg()); hist.append('append')
                         elif k == 'ext':
